@@ -1,6 +1,7 @@
 package main
 
 import (
+	"bytes"
 	"bufio"
 	"encoding/json"
 	"flag"
@@ -385,6 +386,151 @@ func cmdMemWitness(args []string) error {
 			case <-time.After(5 * time.Second):
 				add("hang", "sc_rd", "ReadFile did not return after the writer closed")
 			}
+		}
+	}
+	// ---- sw_cp: a copy (of the file, of its directory) while a stream writer holds the file open with part of
+	// the new value written: the copy must wait for Close (or fail); it must never contain the partial value
+	for _, how := range []string{"copyfile", "copy", "copydir-parent"} {
+		executed++
+		fs, _ := memfs.NewFilespace()
+		fs.WriteFile("d/f", []byte("OLD-COMPLETE"), filesystem.DefaultUnixFileMode)
+		w, err := fs.Writer("d/f")
+		if err != nil {
+			add("witness:error", "sw_cp", err.Error())
+			continue
+		}
+		w.Write([]byte("NEW-"))
+		cp := make(chan error, 1)
+		go func() {
+			switch how {
+			case "copyfile":
+				cp <- fs.CopyFile("d/f", "d/g")
+			case "copy":
+				cp <- fs.Copy("d/f", "d/g")
+			default:
+				cp <- fs.CopyDirectory("d", "e")
+			}
+		}()
+		dest := map[string]string{"copyfile": "d/g", "copy": "d/g", "copydir-parent": "e/f"}[how]
+		returnedEarly := false
+		select {
+		case <-cp:
+			returnedEarly = true
+		case <-time.After(80 * time.Millisecond):
+		}
+		w.Write([]byte("COMPLETE"))
+		w.Close()
+		if !returnedEarly {
+			select {
+			case <-cp:
+			case <-time.After(5 * time.Second):
+				add("hang", "sw_cp:"+how, "the copy did not return after the writer was closed")
+				continue
+			}
+		}
+		if data, err := fs.ReadFile(dest); err == nil {
+			if v := string(data); v != "NEW-COMPLETE" && v != "OLD-COMPLETE" {
+				add("torn:copy-of-open-writer", how+" while a stream writer has written part of the new value", fmt.Sprintf("the copy holds %q, a value nobody wrote (complete values: OLD-COMPLETE, NEW-COMPLETE)", v))
+			}
+		}
+	}
+	// ---- cd_rm: a directory copy racing with removals of the directory's children (MemCopyDir.tla): the copy must
+	// hold the children of ONE instant -- all children minus the first k removed ones, each name once, right content
+	rounds := 80
+	for round := 0; round < rounds; round++ {
+		executed++
+		fs, _ := memfs.NewFilespace()
+		const nchild = 40
+		content := func(i int) []byte {
+			b := make([]byte, 24*1024)
+			for j := range b {
+				b[j] = byte(i*7 + j)
+			}
+			return b
+		}
+		for i := 0; i < nchild; i++ {
+			fs.WriteFile(fmt.Sprintf("sd/c%02d", i), content(i), filesystem.DefaultUnixFileMode)
+		}
+		// removal order: never the last child first (the shift must move something)
+		order := []int{3, 0, 11, 7, 20, 1, 30, 15, 2, 25}
+		start := make(chan struct{})
+		var wg sync.WaitGroup
+		var cerr error
+		wg.Add(2)
+		go func() {
+			defer wg.Done()
+			<-start
+			if round%2 == 0 {
+				cerr = fs.Copy("sd", "dst")
+			} else {
+				cerr = fs.CopyDirectory("sd", "dst")
+			}
+		}()
+		go func() {
+			defer wg.Done()
+			<-start
+			for _, i := range order {
+				fs.Remove(fmt.Sprintf("sd/c%02d", i))
+				if round%3 == 0 {
+					runtime.Gosched()
+				}
+			}
+		}()
+		close(start)
+		waitDone := make(chan struct{})
+		go func() { wg.Wait(); close(waitDone) }()
+		select {
+		case <-waitDone:
+		case <-time.After(10 * time.Second):
+			add("hang", "cd_rm", "Copy(dir) against Remove(children) did not finish")
+			continue
+		}
+		if cerr != nil {
+			add("witness:error", "cd_rm", "Copy failed: "+cerr.Error())
+			continue
+		}
+		infos, err := fs.ReadDir("dst")
+		if err != nil {
+			add("witness:error", "cd_rm", "ReadDir(dst): "+err.Error())
+			continue
+		}
+		seen := map[string]int{}
+		for _, inf := range infos {
+			seen[inf.Name()]++
+		}
+		what := ""
+		for n, c := range seen {
+			if c > 1 {
+				what = fmt.Sprintf("the copy lists %s %d times", n, c)
+			}
+		}
+		if what == "" {
+			// prefix property over the removal order
+			k := 0
+			for k < len(order) && seen[fmt.Sprintf("c%02d", order[k])] == 0 {
+				k++
+			}
+			removedPrefix := map[int]bool{}
+			for _, i := range order[:k] {
+				removedPrefix[i] = true
+			}
+			for i := 0; i < nchild && what == ""; i++ {
+				name := fmt.Sprintf("c%02d", i)
+				if removedPrefix[i] {
+					continue
+				}
+				if seen[name] == 0 {
+					what = fmt.Sprintf("the copy lacks %s although children removed LATER (%v after the first %d removals) are in it", name, order[k:], k)
+				} else if data, err := fs.ReadFile("dst/" + name); err != nil || !bytes.Equal(data, content(i)) {
+					what = fmt.Sprintf("dst/%s does not hold the source's content (err %v, %d bytes)", name, err, len(data))
+				}
+			}
+			if what == "" && len(infos) != nchild-k {
+				what = fmt.Sprintf("the copy has %d entries, the children of one instant would be %d", len(infos), nchild-k)
+			}
+		}
+		if what != "" {
+			add("torn:copydir-snapshot", "Copy(sd, dst) racing with Remove(sd/c..) in the order "+fmt.Sprint(order), what)
 		}
 	}
 	out := map[string]interface{}{"executed": executed, "failures_by_key": byKey, "examples": examples, "known": known, "known_examples": knownEx}
